@@ -22,10 +22,6 @@ SETS = {  # n, h, d, hp, a, k  (coverage/cost model only; the oracle's constants
 NAMES = ["SLH-DSA-%s-%s" % (h, s) for s in ("128s", "128f", "192s", "192f", "256s", "256f") for h in ("SHA2", "SHAKE")]
 
 
-def _repo():
-    return os.environ.get("VERIF_REPO") or REPO_DEFAULT
-
-
 # --------------------------------------------------------------------------------------------- known answers (data)
 def kat_vectors():
     """Known answers embedded in the repository's tests, read as DATA: (a) internal/signature/slhdsa/
@@ -269,14 +265,20 @@ def run(ctx):
         "hook domains: base_2b on all 2^16 two-byte inputs for b = 1..16, md- and WOTS-sized inputs with walking bits, toInt/toByte, "
         "WOTS checksum for every digit sum, ADRS setter sequences with every field at 0 / max / byte probes and every type change, "
         "digest -> (FORS indices, idx_tree, idx_leaf, per-layer indices) as derived by the real verification path for walking-bit and "
-        "random digests (h-h' = 64 for 256f). Each event is judged by TLC against FIPS 205 in TLA+.")
+        "random digests (h-h' = 64 for 256f); signInternal / verifyInternal with H_msg forced to chosen digests (real F, H, T_l, PRF): "
+        "every leaf index at every hypertree layer (f sets: all 2^h' values; s sets: 0 and max, thorough 24 values), all FORS indices "
+        "0 / max / boundary; the final root comparison probed with stubbed hashes on PK.root values differing in each byte. Each event "
+        "is judged by TLC against FIPS 205 in TLA+; (R) signatures made by the specification with chosen addrnd are fed to Tink's verifier.")
     ctx.assumptions += [
         "SHAKE256 (own Keccak sponge self-checked against the JDK's SHA3), SHA-256/512 and HMAC are the JDK's (independent of Go)",
         "the TLA+ transcription of FIPS 205 is gated by 24 known-answer vectors from two independent implementations (sphincsplus "
         "reference code, Tink C++) embedded in the repository's tests, and by an exhaustive toy-parameter model check",
         "rejection of modifications is checked on enumerated single-component corruptions, not on all byte strings",
-        "s-set deterministic signatures are compared byte for byte only in the thorough tier (one per set, piece by piece); otherwise "
-        "R = PRF_msg(SK.prf, PK.seed, M') and the reference verifies the signature",
+        "whole-signature equality with the reference: f sets always (1 quick / 3 thorough per set, plus chosen-digest signatures); s sets "
+        "one signature per set piece by piece in the thorough tier, in the quick tier one XMSS layer (and SIG_FORS for n = 16). All other "
+        "signatures: R, the k FORS secret values and the WOTS+ signature of every layer are compared exactly and the signature must "
+        "verify; FORS authentication paths and XMSS authentication paths below the top layer of THOSE signatures are not compared "
+        "(verification cannot see them: the signer signs whatever root its own lower part verifies to)",
         "ADRS 32-bit words are probed up to 2^31 - 1 (TLC integers); no parameter set uses larger values",
     ]
     drv = ctx.go_build("c16")
@@ -305,7 +307,7 @@ def run(ctx):
         ctx.log("NOTE: VERIF_C16_ONLY=%s -- reduced run for a mutation trial, not evidence" % only)
         r = ctx.run([drv, "-out", trace, "-only", only], timeout=3000)
         events = [json.loads(x) for x in open(trace).read().splitlines() if x.strip()]
-        report(ctx, validate(ctx, gate[:0] + events, "c16", shards=16, timeout=2700))
+        report(ctx, validate(ctx, events, "c16", shards=16, timeout=2700))
         return
 
     # ---- (M) toy parameters: sign-then-verify for every digest, WOTS for every message, XMSS for every leaf
@@ -332,7 +334,7 @@ def run(ctx):
     ctx.stage("gate:known-answers", events=len(gate), level=level)
 
     allev = gate + events + pevents
-    mism = validate(ctx, allev, "c16", shards=16, timeout=2700 if ctx.thorough else 900)
+    mism = validate(ctx, allev, "c16", shards=16, timeout=7200 if ctx.thorough else 1800)
     ctx.cov["traces_validated_against_impl"] += 1
     ctx.cov["events"] = len(events) + len(pevents)
     by = {}
@@ -377,8 +379,9 @@ MANIFEST = dict(
           "the real code for all twelve sets: keys from seeds and deterministic signatures byte-identical (f sets; s sets piecewise in "
           "the thorough tier), every produced signature verifies, Tink's Verify verdict equals the reference's on valid signatures and "
           "on every single-component corruption, wrong lengths, message / context / key modifications; hook functions (base_2b, toInt, "
-          "toByte, checksum, ADRS, digest split incl. h-h'=64) on exhaustive small domains; (R) specification-made signatures are "
-          "accepted by Tink. Conformance on enumerated inputs, not a proof over all byte strings."),
+          "toByte, checksum, ADRS, digest split incl. h-h'=64) on exhaustive small domains; sign/verify with forced digests reach every "
+          "leaf index at every layer and boundary FORS indices on the real code; (R) specification-made signatures are accepted by "
+          "Tink. Conformance on enumerated inputs, not a proof over all byte strings."),
     note=("Trusted: JDK SHA-2/HMAC, the Keccak sponge of the primitive binding (self-checked against JDK SHA3), TLC, and the TLA+ "
           "transcription, which reproduces 12 sphincsplus deterministic signatures byte for byte and verifies 12 Tink C++ signatures "
           "(known answers embedded in the repository's tests, read as data). Forgery resistance itself is not claimed."),
